@@ -759,6 +759,26 @@ def random_string(rng, name, pool):
 # ---------------------------------------------------------------------------
 
 
+_FOLD_TO_ASCII = ["\u212a", "\u017f", "\u0130", "\u0131", "\u2126",
+                  "\u212b", "\uff41", "\uff21", "\u0660", "\uff10"]
+
+
+def fold_specials(name):
+    """Exemplars of the type with one character inserted or replaced by a
+    code point that lower-casing / case-folding / digit conversion turns
+    into something ASCII (Kelvin sign -> k, long s, dotted and dotless i,
+    Ohm, Angstrom, full-width letters and digits, Arabic-Indic zero): a
+    converter that normalises before it validates accepts these."""
+    for e in _EXEMPLARS[name]:
+        if FIX in e:
+            continue
+        for c in _FOLD_TO_ASCII:
+            for pos in range(min(len(e), 10) + 1):
+                yield e[:pos] + c + e[pos:]
+                if pos < len(e):
+                    yield e[:pos] + c + e[pos + 1:]
+
+
 def cross_pool():
     """Strings that at least one datatype accepts (exemplars), in their
     case variants: what a converter may wrongly remember for another."""
@@ -804,6 +824,12 @@ def run_shard(ctx):
                 if ctx.mine(i):
                     check_one(env, name, s, "structured")
                     res.count("structured_cases")
+            if name not in SLOW_TYPES:
+                for s in fold_specials(name):
+                    i += 1
+                    if ctx.mine(i):
+                        check_one(env, name, s, "fold")
+                        res.count("fold_special_cases")
         # (c) random
         for name in NAMES:
             rng = ctx.rng("random", name)
